@@ -358,7 +358,7 @@ func sgn(i int) int {
 
 func (fm *family) checkTuple(c *lib.Ctx, tp *tup) {
 	fail := func(class, format string, a ...any) {
-		c.Fail(class, kase{Kind: "tuple", Fam: fm.name, T1: hx(tp.t)}, "family %s tuple %s: %s", fm.name, q(tp.t), fmt.Sprintf(format, a...))
+		failc(c, class, kase{Kind: "tuple", Fam: fm.name, T1: hx(tp.t)}, "family %s tuple %s: %s", fm.name, q(tp.t), fmt.Sprintf(format, a...))
 	}
 	// the key does not depend on where the fields sit in the record
 	if kb := fm.specB.Key(tp.recB); kb != tp.key {
@@ -471,7 +471,7 @@ func (tp *tup) logical() []string { return tp.eff }
 func (fm *family) checkHelpersN(c *lib.Ctx, tp *tup, n int, st *hstats) {
 	lt := tp.logical()
 	fail := func(class, format string, a ...any) {
-		c.Fail(class, kase{Kind: "helper", Fam: fm.name, T1: hx(tp.t), N: n},
+		failc(c, class, kase{Kind: "helper", Fam: fm.name, T1: hx(tp.t), N: n},
 			"family %s tuple %s key %q n=%d: %s", fm.name, q(tp.t), tp.key, n, fmt.Sprintf(format, a...))
 	}
 	lead := make([]string, n)
@@ -588,6 +588,7 @@ func run(c *lib.Ctx) {
 		fm.build()
 		fams = append(fams, fm)
 	}
+	runFkScans(c)
 	sizes := map[string]int{}
 	for _, fm := range fams {
 		sizes[fm.name] = len(fm.tuples)
@@ -646,6 +647,12 @@ func replay(c *lib.Ctx, raw json.RawMessage) {
 	var k kase
 	if err := json.Unmarshal(raw, &k); err != nil {
 		lib.Infra("bad case: %v", err)
+	}
+	if k.Kind == "fkscan" {
+		var fc fkCase
+		json.Unmarshal(raw, &fc)
+		replayFk(c, fc)
+		return
 	}
 	var fm *family
 	for _, f := range families() {
@@ -718,4 +725,13 @@ func main() {
 		QuickBudget: 100, ThoroughBudget: 900,
 		Run: run, Replay: replay,
 	})
+}
+
+// failc reports a failure and counts failures that carry a precise class
+// (candidates for KNOWN_FINDINGS) per class in the evidence.
+func failc(c *lib.Ctx, class string, cs any, format string, a ...any) {
+	if class != "" {
+		c.Count("classified_failures:"+class, 1)
+	}
+	c.Fail(class, cs, format, a...)
 }
